@@ -400,9 +400,9 @@ def audit_axioms(mod: str, names: list[str]) -> dict[str, list[str]]:
     write_if_changed(path, body)
     rc, out = lean_file(path)
     res: dict[str, list[str]] = {}
-    for m in re.finditer(r"^'(.+?)' depends on axioms: \[([^\]]*)\]", out, flags=re.S | re.M):
+    for m in re.finditer(r"^'([^\n]+?)' depends on axioms: \[([^\]]*)\]", out, flags=re.M):
         res[m.group(1)] = [a.strip() for a in m.group(2).replace("\n", " ").split(",") if a.strip()]
-    for m in re.finditer(r"^'(.+?)' does not depend on any axioms", out, flags=re.M):
+    for m in re.finditer(r"^'([^\n]+?)' does not depend on any axioms", out, flags=re.M):
         res[m.group(1)] = []
     # names may be reported fully qualified; map back by suffix
     final = {}
